@@ -21,7 +21,7 @@ def forward_map_molecule(cg_mol, aa_mol):
         cg_pos = np.zeros(3)
         for aa_node, weight in weights.items():
             cg_pos += aa_mol.nodes[aa_node]['position']*weight
-        cg_pos = cg_pos/ len(weights)
+        cg_pos = cg_pos / sum(weights.values())
         cg_mol.nodes[cg_node]['position'] = cg_pos
 
 def embedd_cg_molecule_via_rdkit(cg_mol, aa_mol):
